@@ -4,6 +4,7 @@ import (
 	"bufio"
 	"encoding/json"
 	"fmt"
+	"hash/fnv"
 	"os"
 	"os/exec"
 	"path/filepath"
@@ -354,6 +355,20 @@ func runParent(id, tier string) int {
 
 	results := make([]*Result, n)
 	var rmu sync.Mutex
+	ag := newAgg()
+	// store keeps only what the summary needs per case (the run may have
+	// millions of cases): counters, sets and samples are folded in at once
+	store := func(r *Result) {
+		if r.Index < 0 || r.Index >= n || results[r.Index] != nil {
+			return
+		}
+		ag.fold(r)
+		slim := &Result{Index: r.Index, Inconclusive: r.Inconclusive, Nontrivial: r.Nontrivial}
+		if len(r.Viols) > 0 {
+			slim.Viols, slim.Sample = r.Viols, r.Sample
+		}
+		results[r.Index] = slim
+	}
 	crashLogs := map[int]string{}
 	var wg sync.WaitGroup
 	timeout := p.CaseTimeout
@@ -407,7 +422,7 @@ func runParent(id, tier string) int {
 							}
 							if rec.Result != nil {
 								rmu.Lock()
-								results[rec.Result.Index] = rec.Result
+								store(rec.Result)
 								rmu.Unlock()
 							}
 						}
@@ -437,7 +452,7 @@ func runParent(id, tier string) int {
 								}
 								r.ViolateD(sig, keep, "child process died while running this case (%v); log kept at %s", werr, keep)
 							}
-							results[started] = r
+							store(r)
 						}
 						rmu.Unlock()
 						next = started + 1
@@ -457,7 +472,7 @@ func runParent(id, tier string) int {
 	}
 	wg.Wait()
 
-	return summarize(p, tier, seed, results, time.Since(start))
+	return summarize(p, tier, seed, results, ag, time.Since(start))
 }
 
 func copyTail(src, dst string, max int64) {
@@ -471,13 +486,49 @@ func copyTail(src, dst string, max int64) {
 	os.WriteFile(dst, b, 0644)
 }
 
-func summarize(p *Prop, tier string, seed uint64, results []*Result, wall time.Duration) int {
+// agg folds per-case observations as they arrive.
+type agg struct {
+	samples  []any
+	fps      map[uint64]struct{}
+	counters map[string]int64
+	sets     map[string]map[string]bool
+}
+
+func newAgg() *agg {
+	return &agg{fps: map[uint64]struct{}{}, counters: map[string]int64{}, sets: map[string]map[string]bool{}}
+}
+
+func (a *agg) fold(r *Result) {
+	if r.Nontrivial && r.FP != "" && r.Inconclusive == "" {
+		h := fnv.New64a()
+		h.Write([]byte(r.FP))
+		a.fps[h.Sum64()] = struct{}{}
+	}
+	for k, v := range r.Counters {
+		a.counters[k] += v
+	}
+	for k, vs := range r.Sets {
+		if a.sets[k] == nil {
+			a.sets[k] = map[string]bool{}
+		}
+		for _, v := range vs {
+			if len(a.sets[k]) < 200000 {
+				a.sets[k][v] = true
+			}
+		}
+	}
+	if r.Sample != nil && len(a.samples) < 4 && (r.Nontrivial || r.Index < 2) {
+		a.samples = append(a.samples, map[string]any{"case": r.Index, "input": r.Sample})
+	}
+}
+
+func summarize(p *Prop, tier string, seed uint64, results []*Result, ag *agg, wall time.Duration) int {
 	kn := loadKnown()
 	knownHits := map[int]int{}
-	var samples []any
-	fps := map[string]bool{}
-	counters := map[string]int64{}
-	sets := map[string]map[string]bool{}
+	samples := ag.samples
+	fps := ag.fps
+	counters := ag.counters
+	sets := ag.sets
 	evals, inconcl, notrun := 0, 0, 0
 	inconclReasons := map[string]int{}
 	type vrec struct {
@@ -493,24 +544,9 @@ func summarize(p *Prop, tier string, seed uint64, results []*Result, wall time.D
 		evals++
 		if r.Inconclusive != "" {
 			inconcl++
-			inconclReasons[r.Inconclusive]++
-		}
-		if r.Nontrivial && r.FP != "" && r.Inconclusive == "" {
-			fps[r.FP] = true
-		}
-		for k, v := range r.Counters {
-			counters[k] += v
-		}
-		for k, vs := range r.Sets {
-			if sets[k] == nil {
-				sets[k] = map[string]bool{}
+			if len(inconclReasons) < 50 {
+				inconclReasons[r.Inconclusive]++
 			}
-			for _, v := range vs {
-				sets[k][v] = true
-			}
-		}
-		if r.Sample != nil && len(samples) < 4 && (r.Nontrivial || i < 2) {
-			samples = append(samples, map[string]any{"case": i, "input": r.Sample})
 		}
 		for _, v := range r.Viols {
 			matched := false
@@ -527,12 +563,7 @@ func summarize(p *Prop, tier string, seed uint64, results []*Result, wall time.D
 		}
 	}
 	if len(samples) == 0 {
-		for i, r := range results {
-			if r != nil && r.Sample != nil {
-				samples = append(samples, map[string]any{"case": i, "input": r.Sample})
-				break
-			}
-		}
+		samples = append(samples, map[string]any{"note": "no case of this run carried a sample"})
 	}
 	setSizes := map[string]int{}
 	for k, s := range sets {
